@@ -163,6 +163,7 @@ func (t *fnTrans) instr(in ssa.Instruction) {
 	case *ssa.MakeClosure:
 		r := t.fresh("closure", "Int")
 		t.assume(fmt.Sprintf("(> %s 0)", r))
+		t.assume(fmt.Sprintf("(= (fnname_of %s) %s)", r, t.S.strLit(strings.TrimSuffix(in.Fn.(*ssa.Function).String(), "$bound"))))
 		var b []Val
 		for _, x := range in.Bindings {
 			b = append(b, t.val(x))
